@@ -263,7 +263,7 @@ impl Property for C06 {
     fn cases(&self, tier: Tier) -> u64 {
         match tier {
             Tier::Quick => 16_000,
-            Tier::Thorough => 400_000,
+            Tier::Thorough => 300_000,
         }
     }
     fn required_labels(&self, _tier: Tier) -> Vec<&'static str> {
